@@ -2,6 +2,7 @@ package main
 
 import (
 	_ "verifmc/props/c02"
+	_ "verifmc/props/c07"
 
 	"verifmc/internal/xs"
 )
